@@ -193,6 +193,16 @@ CHECKS["C02"] = (
     "DESIGN.md section 6, C02",
 )
 
+CHECKS["C03"] = (
+    "Hypothesis-generated process-level schedules (order, pool size, warm-up history, environment) executed in subprocesses; digest equality against fresh-process references",
+    "Generated schedules over a batch of meters of every family: permutations, 1-8 subprocesses, unrelated warm-up actions and repeated "
+    "fits/predictions inside warm processes, PYTHONHASHSEED in {0, 1, 12345, random} and BLAS thread variables in {unset, 1, 4}; the "
+    "sha-256 of to_json() and of the prediction bytes of every execution must equal the fresh single-process reference. CalTRACK's "
+    "thread-count dependence is a listed known finding.",
+    "Trusted: sha-256 digests; the harness owns the schedule at process granularity only; one machine / BLAS build.",
+    "DESIGN.md section 6, C03",
+)
+
 PENDING_REASON = "check not built yet in this session (work in progress; property-based testing applies and is planned, see DESIGN.md section 6)"
 
 
